@@ -126,8 +126,13 @@ impl Report {
             }
         }
         self.machinery.extend(out.machinery.iter().take(5).cloned());
+        let mut by_key: BTreeMap<String, u64> = BTreeMap::new();
+        for ((p, k, c), n) in &out.found_per_key {
+            by_key.insert(format!("{p}:{k}@{c}"), *n);
+        }
         self.parts.push(json!({
             "part": part,
+            "violations_found_by_property_kind_class_before_known_finding_matching": by_key,
             "bounds": bounds,
             "scenarios": out.scenarios,
             "executions": out.executions,
